@@ -163,6 +163,29 @@ func (g *coreGen) boolExpr(d int) Node {
 	case 5:
 		return cn("bin", "op", g.pick("&&", "||"), "l", map[string]any(g.anyExpr(d-1)), "r", map[string]any(g.anyExpr(d-1)))
 	case 6:
+		if g.r.Intn(2) == 0 {
+			// the kind of a value: of an expression, a variable that may be unset, a container, an element
+			var e Node
+			switch g.r.Intn(5) {
+			case 0:
+				e = cn("var", "n", g.pick("g0", "s0", "r1", "o0", "cnt", "pv", "nosuchvar"))
+			case 1:
+				if !g.inFn {
+					e = g.containerRead()
+				} else {
+					e = g.anyExpr(d - 1)
+				}
+			case 2:
+				if g.inRule {
+					e = cn("dollar")
+				} else {
+					e = cn("null")
+				}
+			default:
+				e = g.anyExpr(d - 1)
+			}
+			return cn("is", "e", map[string]any(e), "ty", g.pick("string", "number", "bool", "array", "object", "null", "unknown", "regex", "function", "thing"))
+		}
 		return cn("un", "op", "!", "e", map[string]any(g.anyExpr(d-1)))
 	default:
 		// comparisons across kinds: null below everything, booleans as 0/1, non-numeric strings as 0
@@ -757,6 +780,8 @@ func coreExpr(e Node) string {
 			parts = append(parts, strconv.Quote(k.(string))+": "+coreExpr(vals[i]))
 		}
 		return "{" + strings.Join(parts, ", ") + "}"
+	case "is":
+		return "(" + coreExpr(nnode(e, "e")) + " is " + nstr(e, "ty") + ")"
 	case "match":
 		parts := []string{}
 		for _, c := range nlist(e, "cases") {
@@ -821,7 +846,7 @@ func coreStmt(s Node, depth int) string {
 		e := nnode(s, "e")
 		if nstr(e, "k") == "inc" && !nbool(e, "post") {
 			// a statement must not start with ++ / -- (it would continue the previous line)
-			return in + "pv = " + coreExpr(e)
+			return in + "pz = " + coreExpr(e)
 		}
 		return in + coreExpr(e)
 	case "block":
@@ -948,7 +973,7 @@ func checkCore(c *Ctx, n int, seedMix int64) {
 		// normalise through JSON so that the renderer and the model see the same tree
 		raw, _ := json.Marshal(g.program())
 		progs[i] = decodeNode(raw)
-		// the pre-increment rendering uses a scratch variable pv: harmless to the model (not printed)
+		// the pre-increment rendering uses a scratch variable pz that nothing reads
 		jobs[i] = Job{Kind: "run", Prog: []byte(coreProgramText(progs[i])), Files: []FileIn{{Name: "in.json", Data: []byte(coreInput(progs[i]))}}, Budget: 300000}
 		if dir := os.Getenv("VERIF_DUMP_CORE"); dir != "" { // development aid: the generated programs as files
 			os.WriteFile(fmt.Sprintf("%s/core%04d.jqawk", dir, i), jobs[i].Prog, 0o644)
